@@ -41,6 +41,7 @@ type c16Val struct {
 	Len  int    `json:"len"`
 	Seed uint32 `json:"seed"`
 	Flip int    `json:"flip"`
+	Pad  int    `json:"pad,omitempty"` // zero bytes appended after the Len content bytes (values differing only by trailing zeros)
 }
 
 // c16Op is one step of a history.
@@ -103,15 +104,19 @@ func c16Stream(tag byte, seed uint32, extra uint32, n int) []byte {
 }
 
 func c16ValueBytes(v c16Val) []byte {
+	pad := v.Pad
+	if pad < 0 {
+		pad = 0
+	}
 	if v.Len <= 0 {
-		return []byte{}
+		return make([]byte, pad)
 	}
 	b := c16Stream('v', v.Seed, 0, v.Len)
 	if v.Flip >= 0 {
 		bit := v.Flip % (8 * v.Len)
 		b[bit/8] ^= 1 << uint(bit%8)
 	}
-	return b
+	return append(b, make([]byte, pad)...)
 }
 
 func c16KeyBytes(in *c16Input, id int) types.StateKey {
@@ -267,8 +272,11 @@ func c16Gen(rt *rapid.T) c16Input {
 		case w < 45:
 			op = c16Op{Op: "set", Key: rapid.IntRange(0, idRange).Draw(rt, "id"), Val: c16GenVal(rt, pool)}
 			live++
-		case w < 57:
+		case w < 52:
 			op = c16Op{Op: "samelen", Sel: rapid.IntRange(0, 1<<16).Draw(rt, "sel"), Val: c16GenVal(rt, pool)}
+		case w < 57:
+			// the selected key's value gains or loses trailing ZERO bytes (content otherwise unchanged)
+			op = c16Op{Op: "pad", Sel: rapid.IntRange(0, 1<<16).Draw(rt, "sel"), N: rapid.SampledFrom([]int{0, 1, 1, 2, 3, 8, 31, 32, 33}).Draw(rt, "pad")}
 		case w < 67:
 			s, b := c16FlipLen(rt)
 			// Val.Len carries the small length, N the big one: the check picks by the current length
@@ -438,6 +446,18 @@ func c16Check(c *kit.Case, in c16Input) {
 		case "del":
 			if ids := sortedLive(); len(ids) > 0 {
 				remove(ids[op.Sel%len(ids)])
+			}
+		case "pad":
+			if ids := sortedLive(); len(ids) > 0 {
+				id := ids[op.Sel%len(ids)]
+				old := live[id]
+				nv := old
+				nv.Pad = op.N
+				if nv == old {
+					nv.Pad = old.Pad + 1
+				}
+				live[id] = nv
+				changedSinceCompute[id] = "pad"
 			}
 		case "samelen":
 			if ids := sortedLive(); len(ids) > 0 {
